@@ -34,8 +34,7 @@ def run(rep, ctx):
             if len(rep.samples) < 3 and edges:
                 rep.sample({'requests': n, 'restart': restart, 'schedule': edges[len(edges) // 2][0], 'expected': edges[len(edges) // 2][1]})
     rep.extra['states'] = total
-    if tier == 'thorough':
-        real_process_exploration(rep)
+    real_process_exploration(rep)      # 3 s: real application, real worker processes (exploration of the OS-level residue)
 
 
 def real_process_exploration(rep):
@@ -45,7 +44,8 @@ def real_process_exploration(rep):
     if not os.path.exists(script):
         rep.extra['real_process_probe'] = 'not built'
         return
-    p = subprocess.run([sys.executable, '-W', 'ignore', script], stdout=subprocess.PIPE, stderr=subprocess.STDOUT, timeout=300)
+    env = dict(os.environ, PYTHONPATH='/repo')
+    p = subprocess.run(['/venv/bin/python', '-W', 'ignore', script], stdout=subprocess.PIPE, stderr=subprocess.STDOUT, timeout=300, env=env)
     out = p.stdout.decode(errors='replace')
     rep.extra['real_process_probe'] = out[-1500:]
     rep.obligation('exploration: real worker processes are gone after shutdown in every probed scenario', p.returncode == 0, out[-300:])
